@@ -16,9 +16,11 @@ import (
 //	rx     obs += [(<-c)]
 //	rx2    w = "W"; w, k = <-c; obs += [w, k]
 //	forin  for q in c { obs += [q] }; obs += ["E"]
+//	forinb n = 0; for q in c { obs += [q]; n++; if n >= V { break } }; obs += ["B"]
+//	       (for-in left early after V items; what is still buffered must stay in the channel)
 type COp struct {
 	Op  string `json:"op"`
-	V   int64  `json:"v,omitempty"`   // send: the item number
+	V   int64  `json:"v,omitempty"`   // send: the item number; forinb: items after which the loop is left
 	Lit string `json:"lit,omitempty"` // send: spelling kind of the literal: int | float | str
 	// Bare: (last operation only, send/close on the closed channel) not wrapped in
 	// try/catch: the script must end with an error value returned to the host.
@@ -69,14 +71,24 @@ func genClosed(t *rapid.T) ClosedCase {
 				cand = append(cand, "send", "send", "send")
 			}
 			if qlen > 0 {
-				cand = append(cand, "rx", "rx2")
+				cand = append(cand, "rx", "rx2", "forinb")
+			}
+			if qlen > 1 {
+				cand = append(cand, "forinb", "forinb", "forinb")
 			}
 			cand = append(cand, "close")
 		} else {
-			cand = []string{"send", "close", "rx", "rx", "rx2", "rx2", "forin"}
+			cand = []string{"send", "close", "rx", "rx", "rx2", "rx2", "forin", "forinb", "forinb"}
 		}
 		op := COp{Op: rapid.SampledFrom(cand).Draw(t, "op")}
 		switch op.Op {
+		case "forinb":
+			if closed {
+				op.V = int64(rapid.IntRange(1, 3).Draw(t, "leave_after"))
+			} else {
+				op.V = int64(rapid.IntRange(1, max(1, qlen-1)).Draw(t, "leave_after")) // never blocks: that many are buffered
+			}
+			qlen -= min(qlen, int(op.V))
 		case "send":
 			op.V = next
 			next++
@@ -128,6 +140,8 @@ func renderClosed(c ClosedCase) string {
 			b.WriteString("obs += [(<-c)]\n")
 		case "rx2":
 			fmt.Fprintf(&b, "w%d = \"W\"\nw%d, k%d = <-c\nobs += [w%d, k%d]\n", i, i, i, i, i)
+		case "forinb":
+			fmt.Fprintf(&b, "n%d = 0\nfor q in c {\n\ttick()\n\tobs += [q]\n\tn%d++\n\tif n%d >= %d {\n\t\tbreak\n\t}\n}\nobs += [\"B\"]\n", i, i, i, op.V)
 		case "forin":
 			b.WriteString("for q in c {\n\ttick()\n\tobs += [q]\n}\nobs += [\"E\"]\n")
 		}
@@ -220,6 +234,26 @@ func modelClosed(c ClosedCase) (want []mv, labels []string, nontrivial bool, ok 
 				labels = append(labels, "rx2-drained", "rx2-drained")
 			default:
 				return nil, nil, false, false
+			}
+		case "forinb":
+			if op.V < 1 || op.V > 3 || (!closed && len(q) < int(op.V)) {
+				return nil, nil, false, false // would block
+			}
+			take := min(len(q), int(op.V))
+			if len(q) > take {
+				nontrivial = true
+			}
+			for _, v := range q[:take] {
+				want = append(want, v)
+				labels = append(labels, "forin-break-item")
+			}
+			left := len(q) - take
+			q = q[take:]
+			want = append(want, mv{k: 's', s: "B"})
+			if left > 0 {
+				labels = append(labels, "forin-break-leaves-items")
+			} else {
+				labels = append(labels, "forin-break-end")
 			}
 		case "forin":
 			if !closed {
